@@ -331,6 +331,39 @@ func ScenarioBasicInvalidAfterRestart() Script {
 	)
 }
 
+// ScenarioEveryModuleAroundRestart: block 1 and 2 use every module once (warming whatever a keeper might
+// remember outside the store), the replica under test is restarted after block 2, and blocks 3 and 4 use every
+// module again: a node that kept running and a node re-opened from its database must report the same code, gas
+// and events for every one of those transactions.
+func ScenarioEveryModuleAroundRestart() Script {
+	all := func(g *Gen) []genFn {
+		return []genFn{g.stakingDelegate, g.hardDeposit, g.swapDeposit, g.cdpCreate, g.savingsDeposit, g.earnDeposit,
+			g.bep3Create, g.committeeSubmit, g.issuance, g.communityFund, g.bankSend, g.hardBorrow, g.swapTrade, g.cdpDraw,
+			g.liquidMint, g.liquidBurn, g.earnWithdraw, g.savingsWithdraw, g.incentiveClaim, g.govSubmit, g.auctionBid}
+	}
+	mint := func(g *Gen, k int, amt int64) genFn {
+		u := g.P.Users[k]
+		m := liquidtypes.NewMsgMintDerivative(u.Addr, g.P.ValAddr(0), c("ukava", amt))
+		return fixed(one("liquid.mint", u, &m, "val0"))
+	}
+	return script(
+		blk(sixS, func(g *Gen) []genFn {
+			var out []genFn
+			for k := 0; k < 4; k++ {
+				u := g.P.Users[k]
+				m := stakingtypes.NewMsgDelegate(u.Addr, g.P.ValAddr(0), c("ukava", int64(900+k*13)*1_000_000))
+				out = append(out, fixed(one("staking.delegate", u, m, "val0")))
+			}
+			return append(out, all(g)...)
+		}),
+		blk(sixS, func(g *Gen) []genFn { return append([]genFn{mint(g, 0, 300_000_000), mint(g, 1, 200_000_000)}, all(g)...) }),
+		// the replica under test is restarted here
+		blk(sixS, func(g *Gen) []genFn { return append([]genFn{mint(g, 2, 100_000_000), mint(g, 0, 50_000_000)}, all(g)...) }),
+		blk(sixS, func(g *Gen) []genFn { return append([]genFn{mint(g, 3, 70_000_000)}, all(g)...) }),
+		blk(sixS, all),
+	)
+}
+
 // ScenarioLastCdpsLiquidated: several minimum-size CDPs of one collateral type, opened by different users, are
 // the only debt in the cdp module account. Interest accrues over a short gap (per-CDP interest rounds up more
 // than the collateral-type total does: the module holds 30000002 debt coins, the CDPs owe 30000003), then the
